@@ -80,7 +80,9 @@ func c12Run(c *h.Ctx) {
 	}
 	// an update issued from a second goroutine 0..2 ms after the last settlement signal overlaps the engine opening
 	// the hand: that hand is played at the old or at the new level (as a whole), every later hand at the new one
-	var alt *blindLvl
+	// (round 7: the second goroutine may be a level clock that fires several times in a row across the open - the hand
+	// is then played, as a whole, at the level in force before or at exactly one of the announced levels)
+	var alts []blindLvl
 	var altDone chan struct{}
 	lastSettled := time.Now()
 	mon.BeforeSignal = func(p *Play) {
@@ -100,18 +102,35 @@ func c12Run(c *h.Ctx) {
 		}
 		atSignal = cur
 		if r.Intn(4) == 0 {
-			l := nextLevel()
-			alt, altDone = &l, make(chan struct{})
-			delay := time.Duration(r.Intn(2000)) * time.Microsecond
+			n := 1
+			if r.Intn(2) == 0 {
+				n = 2 + r.Intn(5)
+			}
+			alts, altDone = nil, make(chan struct{})
+			gaps := make([]time.Duration, n)
+			for i := 0; i < n; i++ {
+				l := nextLevel()
+				alts = append(alts, l)
+				cur = l
+				updates++
+				if i == 0 {
+					gaps[i] = time.Duration(r.Intn(2000)) * time.Microsecond
+				} else {
+					gaps[i] = time.Duration(r.Intn(500)) * time.Microsecond
+				}
+			}
 			te := p.SS.S.TE
-			go func(done chan struct{}) {
-				time.Sleep(delay)
-				te.UpdateBlind(l.Level, l.Ante, l.Dealer, l.SB, l.BB)
+			go func(ls []blindLvl, done chan struct{}) {
+				for i, l := range ls {
+					time.Sleep(gaps[i])
+					te.UpdateBlind(l.Level, l.Ante, l.Dealer, l.SB, l.BB)
+				}
 				close(done)
-			}(altDone)
-			cur = l
-			updates++
+			}(append([]blindLvl(nil), alts...), altDone)
 			c.Feature("update:overlapping-the-open")
+			if n > 1 {
+				c.Feature("update:level-clock-fires-several-times-across-the-open")
+			}
 		}
 	}
 	mon.BeforeAct = func(p *Play, e *h.Ev, gp int, pid string) bool {
@@ -148,16 +167,40 @@ func c12Run(c *h.Ctx) {
 			m["level_now"] = cur.String()
 			return m
 		}
-		if alt != nil {
+		if alts != nil {
 			<-altDone
 			// (two levels may charge the same amounts: the published level number then tells which one the hand has)
-			if sameMoney(*alt, st.GameState.Meta.Ante, st.GameState.Meta.Blind) && (!sameMoney(atSignal, st.GameState.Meta.Ante, st.GameState.Meta.Blind) || (st.GameBlindState != nil && lvlOfState(st.GameBlindState) == *alt)) {
-				atSignal = *alt // the update came first
+			came := false
+			pick := -1
+			if st.GameBlindState != nil {
+				pub := lvlOfState(st.GameBlindState)
+				for i, a := range alts {
+					if pub == a && sameMoney(a, st.GameState.Meta.Ante, st.GameState.Meta.Blind) {
+						pick = i
+					}
+				}
+			}
+			if pick < 0 && !sameMoney(atSignal, st.GameState.Meta.Ante, st.GameState.Meta.Blind) {
+				// no announced level is published together with its amounts: take the amounts' level for the report
+				for i, a := range alts {
+					if sameMoney(a, st.GameState.Meta.Ante, st.GameState.Meta.Blind) {
+						pick = i
+					}
+				}
+			}
+			if pick >= 0 {
+				atSignal = alts[pick] // this update came first
+				came = true
+				if pick < len(alts)-1 {
+					c.Feature("hand-opened-between-two-ticks-of-the-level-clock")
+				}
+			}
+			if came {
 				c.Feature("overlapping-update-came-before-the-open")
 			} else {
 				c.Feature("overlapping-update-came-after-the-open")
 			}
-			alt = nil
+			alts = nil
 		}
 		if !sameMoney(atSignal, st.GameState.Meta.Ante, st.GameState.Meta.Blind) {
 			sig := "C12/hand-not-played-at-level-in-force-at-open"
@@ -428,7 +471,7 @@ func init() {
 		},
 		Cases:            func(tier string) int { return map[string]int{"quick": 1200, "thorough": 20000}[tier] },
 		MinNontrivial:    func(tier string) int { return map[string]int{"quick": 600, "thorough": 10000}[tier] },
-		RequiredFeatures: func(string) []string { return []string{"update:between-hands", "update:mid-hand", "update:break-mid-hand", "paused-after-break-mid-hand", "update:break-ends", "created-on-break", "level-changed-while-hand-ran", "break-set-in-continue-interval", "break-ends-in-continue-interval", "break-during-open-retry", "update:through-the-manager", "update:overlapping-the-open"} },
+		RequiredFeatures: func(string) []string { return []string{"update:between-hands", "update:mid-hand", "update:break-mid-hand", "paused-after-break-mid-hand", "update:break-ends", "created-on-break", "level-changed-while-hand-ran", "break-set-in-continue-interval", "break-ends-in-continue-interval", "break-during-open-retry", "update:through-the-manager", "update:overlapping-the-open", "update:level-clock-fires-several-times-across-the-open"} },
 		CaseTimeout:      200e9,
 		InProc:           4,
 		Run:              c12Run,
